@@ -105,6 +105,13 @@ func k2Growth(args []string) {
 		{"combine-body", &rt.CTerm{K: rt.KLoop, C: cond(1), A: &rt.CTerm{K: rt.KCombine, A: delayN, B: delayN}}},
 		{"nested-inner-spins", &rt.CTerm{K: rt.KLoop, C: &rt.Cond{Sc: rt.Script{ID: 4, Acts: []rt.Act{{K: rt.AInc, J: 3}}}, J: 3, N: 3},
 			A: &rt.CTerm{K: rt.KLoop, C: cond(1), A: delayN}}},
+		// an endless loop (no condition, no post) that yields in its first iteration and then spins: the
+		// iteration test is the condition of an ite, the exit a break
+		{"endless-after-yield-inside", &rt.CTerm{K: rt.KLoop, A: &rt.CTerm{K: rt.KIte, C: cond(1),
+			A: &rt.CTerm{K: rt.KIte, C: &rt.Cond{Sc: rt.Script{ID: 6}, J: 3, N: 1},
+				A: &rt.CTerm{K: rt.KBind, V: rt.VE{K: rt.VConst, N: 1}, Th: rt.Script{ID: 7, Acts: []rt.Act{{K: rt.ASet, J: 3, N: 1}}}, A: normal},
+				B: &rt.CTerm{K: rt.KCont}},
+			B: &rt.CTerm{K: rt.KBrk}}}},
 		{"after-yield", &rt.CTerm{K: rt.KBind, V: rt.VE{K: rt.VConst, N: 1}, Th: rt.Script{ID: 5}, A: &rt.CTerm{K: rt.KLoop, C: cond(1), A: delayN}}},
 	}
 	worst, wf, wl := -1.0, 0, 0
